@@ -97,12 +97,76 @@ def pair_rule(ctx, body, acquire, release, rule="PAIR"):
     ctx.ob(rule, f"{body.name.split('::')[-1]}|{release}", leak_at is None, f"{body.name}: after a successful {acquire} " + ("every path to a return passes {}".format(release) if leak_at is None else f"a return (bb{leak_at}) is reachable without {release}: the stream state leaks on that exit"), body.file, body.line, sample=True)
 
 
+IO_CALLS = ("seek", "read", "read_exact", "read_le", "read_be", "read_options", "stream_position", "read_to_end", "read_args", "read_le_args")
+
+
+def failure_causes(body):
+    """For every block that produces the function's failure value (a `None` / `Err` for the return place, directly or
+    through the `?` residual conversion): what decided to take it - ('io', callee) when the controlling test is the
+    result of a read / seek / parse, ('inflate', ..) for the decompressor's verdict, ('option', callee) for a
+    get/first/checked_* that came back empty, ('value', detail) when it is a comparison on data."""
+    from ..prov import derive, index_of
+
+    ix = index_of(body)
+    idom = body.idom()
+    out = []
+    for bi, blk in enumerate(body.blocks):
+        if blk["cleanup"] or bi not in body.reachable():
+            continue
+        fails = False
+        t = blk["t"]
+        if t["k"] == "call" and "from_residual" in (t.get("res") or "") and t.get("dest") and t["dest"]["l"] == 0:
+            fails = True
+        for st in blk["s"]:
+            rv = st.get("rv") or {}
+            if st["k"] == "assign" and st["lhs"]["l"] == 0 and not st["lhs"]["p"] and rv.get("k") == "agg" and rv.get("variant") in ("None", "Err"):
+                fails = True
+        if not fails:
+            continue
+        # nearest dominating switch that separates this block from a sibling path
+        cur = bi
+        cause = ("value", "no controlling test found")
+        while cur in idom and idom[cur] != cur:
+            par = idom[cur]
+            tt = body.blocks[par]["t"]
+            if tt["k"] == "switch":
+                targets = {tg for _v, tg in tt["arms"]} | ({tt["else"]} if isinstance(tt.get("else"), int) and tt["else"] >= 0 else set())
+                targets = {x for x in targets if body.blocks[x]["t"]["k"] != "unreachable"}
+                if len(targets) > 1 and any(body.dominates(x, bi) for x in targets) and not all(body.dominates(x, bi) for x in targets):
+                    r = ix.resolve(tt["a"])
+                    d = derive(ix, tt["a"])
+                    lasts = {c_.split("::")[-1] for c_ in d.calls}
+                    if r[0] == "rv" and r[1]["k"] == "discr":
+                        src = derive(ix, {"c": r[1]["p"]})
+                        sl = {c_.split("::")[-1] for c_ in src.calls}
+                        if sl & set(IO_CALLS):
+                            cause = ("io", sorted(sl & set(IO_CALLS))[0])
+                        elif sl & {"get", "first", "last", "checked_sub", "checked_add", "checked_mul", "try_into", "try_from", "get_mut"}:
+                            cause = ("option", sorted(sl)[0])
+                        elif any(n_ in ("compression",) for n_ in src.names) and not sl:
+                            cur = par
+                            continue  # the match on the block kind itself: look further up
+                        else:
+                            cause = ("value", f"test on {sorted(src.names)[:3]} via {sorted(sl)[:3]}")
+                    elif r[0] == "call" and ix.callee(r[1]).endswith("no_header_decompress"):
+                        cause = ("inflate", "no_header_decompress")
+                    elif "no_header_decompress" in lasts and not (d.ops & {"Lt", "Le", "Gt", "Ge", "Eq", "Ne"}):
+                        cause = ("inflate", "no_header_decompress")
+                    else:
+                        cause = ("value", f"{sorted(d.ops)[:3]} on {sorted(d.names)[:3]} via {sorted(lasts)[:3]}")
+                    break
+            cur = par
+        out.append((bi, cause))
+    return out
+
+
 def run(ctx):
     prog = ctx.prog
     wm = model(ctx)
     ctx.decided("dat file-info / block table / block header layouts and FileType codes (W1/W5)")
     ctx.decided("raw-block marker 32000 on both sides (MARKER)")
     ctx.decided("file-type dispatch, standard/texture/model reassembly wiring, member consistency of the model sections (DISPATCH/STD/TEX/MODEL)")
+    ctx.decided("the block reader fails only on failed reads / seeks / inflation, never on header values (REJECT)")
     ctx.decided("block reader buffer sizes, raw-deflate parameters, inflateEnd on all exits (BLOCK/PAIR)")
     ctx.not_decided("the reassembled bytes themselves: inflate correctness, concatenation arithmetic, padding, per-LOD offsets")
 
@@ -412,6 +476,17 @@ def run(ctx):
                 if r[0] == "rv" and r[1]["k"] == "agg" and r[1].get("variant") == "Start":
                     seeks.append(const_int(r[1]["ops"][0]))
         ctx.ob("MODEL", "header-slot", seeks[:1] == [0x44] and 0 in seeks[1:], f"buffer seeks {seeks}; payload must start at 0x44 and the header be written at 0 afterwards", mb.file, mb.line)
+
+    # ---- REJECT: the block reader gives up only when a read, a seek or the decompressor fails - never because of the
+    # values in a block header (every size the format allows, incl. a full 16000-byte block, is read)
+    rdb = prog.raw_body("sqpack::read_data_block")
+    if not rdb:
+        ctx.fail_closed("REJECT", "sqpack::read_data_block not found")
+    else:
+        causes = failure_causes(rdb)
+        ctx.floor("REJECT", "failure exits of read_data_block", len(causes), 4)
+        bad = [(bi_, c_) for bi_, c_ in causes if c_[0] == "value"]
+        ctx.ob("REJECT", "read_data_block|io-only", not bad, f"read_data_block fails on {sorted({c_[0] + ':' + c_[1] for _b, c_ in causes})}" + (f"; value-based rejection: {[c_[1] for _b, c_ in bad]}" if bad else "; no exit rejects a block for its header values"), rdb.file, rdb.line, sample=True)
 
     # ---- BLOCK
     db = next((b for n_, b in prog.bodies.items() if n_.endswith("sqpack::read_data_block")), None)
